@@ -7,11 +7,15 @@ import Proofs.Lemmas.CertsNest2
 entered at phase `k`: one entry (direction, entry phase) per instruction, in address order.
 `Cov c fwd sk k b`: the certificate `c` agrees with it on `[b, b + sk.size)`.
 
-* `Lay.check`: a certificate covering a laid-out skeleton whose phase transfer is defined is locally
+* `Lay.check`: a certificate covering a laid-out skeleton whose phase transfer is defined
+  (`sk.phase fwd k = some k'`) and whose exit entry is `(fwd, k')` (or which `endsPlain`) is locally
   consistent (`checkInsn`) at every instruction of the skeleton;
-* `Root.checkCert_ex`: every emitted program has a valid certificate;
-* `mkCertLoop_sk`: the one-pass `mkCertLoop` computes exactly the explicit certificate on a laid-out
-  skeleton; `Root.mkCert_eq`, `Root.checkCert_mk`: `checkCert prog (mkCert prog) = true`.
+* `Root.checkCert_certs`, `Root.checkCert_ex`: every emitted program has a valid certificate;
+* `mkL_sk`: the one-pass `mkCertLoop` pushes exactly the explicit certificate on a laid-out skeleton
+  (state invariant "after the pending pop": `eff`);
+* `Root.mkCert_eq`, `Root.checkCert_mk`, `emitted_checkCert`: `checkCert prog (mkCert prog) = true`.
+
+No hypothesis beyond the fields `lay`, `size`, `ok`, `phase`, `ends` of `Root` is needed.
 -/
 namespace Regress.Certs
 
@@ -428,5 +432,344 @@ theorem Root.checkCert_certs {r : IR.Regex} {prog : Prog} {sk : Sk} (R : Root r 
 theorem Root.checkCert_ex {r : IR.Regex} {prog : Prog} {sk : Sk} (R : Root r prog sk) :
     ∃ c, checkCert prog c = true :=
   ⟨_, R.checkCert_certs⟩
+
+/-! ## The one-pass certificate `mkCert` is the explicit certificate -/
+
+/-- The state of `mkCertLoop`: direction, phase, stack of pending look-around continuations. -/
+abbrev MkSt := Bool × Nat × List (Nat × Bool)
+
+/-- The pending pop at the start of the iteration for address `ip`. -/
+def eff (ip : Nat) : MkSt → MkSt
+  | (d, k, (cont, od) :: st) => if cont == ip then (od, 0, st) else (d, k, (cont, od) :: st)
+  | (d, k, []) => (d, k, [])
+
+/-- The state after the instruction `i` has been processed in the (popped) state `s`. -/
+def nxt (i : Option Insn) (s : MkSt) : MkSt :=
+  match i with
+  | some (.lookahead _ _ _ cont) => (true, 0, (cont, s.1) :: s.2.2)
+  | some (.lookbehind _ _ _ cont) => (false, 0, (cont, s.1) :: s.2.2)
+  | some (.byteSeq bs) => (s.1, (if s.1 then transF s.2.1 bs else transB s.2.1 bs).getD 0, s.2.2)
+  | _ => (s.1, 0, s.2.2)
+
+def push1 (c : Cert) (p : Bool × Nat) : Cert := { dir := c.dir.push p.1, ph := c.ph.push p.2 }
+def pushL (c : Cert) (L : List (Bool × Nat)) : Cert := L.foldl push1 c
+
+theorem pushL_cons (c : Cert) (p : Bool × Nat) (L : List (Bool × Nat)) :
+    pushL c (p :: L) = pushL (push1 c p) L := rfl
+theorem pushL_append (c : Cert) (A B : List (Bool × Nat)) : pushL c (A ++ B) = pushL (pushL c A) B :=
+  List.foldl_append
+theorem pushL_nil (c : Cert) : pushL c [] = c := rfl
+
+theorem pushL_dir (c : Cert) (L : List (Bool × Nat)) :
+    pushL c L = { dir := c.dir ++ (L.map Prod.fst).toArray, ph := c.ph ++ (L.map Prod.snd).toArray } := by
+  induction L generalizing c with
+  | nil => simp [pushL]
+  | cons p L ih =>
+    rw [pushL_cons, ih]
+    simp [push1]
+
+theorem pushL_empty (L : List (Bool × Nat)) : pushL { dir := #[], ph := #[] } L = certOfList L := by
+  rw [pushL_dir]; simp [certOfList]
+
+/-- `mkCertLoop` on a state triple. -/
+def mkL (prog : Prog) (l : List Nat) (s : MkSt) (c : Cert) : Cert := mkCertLoop prog l s.1 s.2.1 s.2.2 c
+
+theorem mkL_cons (prog : Prog) (ip : Nat) (rest : List Nat) (raw : MkSt) (c : Cert) :
+    mkL prog (ip :: rest) raw c =
+      mkL prog rest (nxt prog.insns[ip]? (eff ip raw)) (push1 c ((eff ip raw).1, (eff ip raw).2.1)) := by
+  obtain ⟨d, k, stack⟩ := raw
+  unfold mkL
+  conv => lhs; unfold mkCertLoop
+  generalize prog.insns[ip]? = oi
+  cases stack with
+  | nil =>
+    simp only [eff]
+    cases oi with
+    | none => rfl
+    | some i => cases i <;> rfl
+  | cons p st =>
+    obtain ⟨cont, od⟩ := p
+    by_cases hc : (cont == ip) = true
+    · simp only [eff, hc, if_true]
+      cases oi with
+      | none => rfl
+      | some i => cases i <;> rfl
+    · simp only [eff, hc]
+      cases oi with
+      | none => rfl
+      | some i => cases i <;> rfl
+
+/-- One step at an instruction, given the popped state. -/
+theorem mkL_step {prog : Prog} {x : Nat} {i : Insn} {raw s : MkSt} (hi : At prog.insns x i)
+    (he : eff x raw = s) (rest : List Nat) (c : Cert) :
+    mkL prog (x :: rest) raw c = mkL prog rest (nxt (some i) s) (push1 c (s.1, s.2.1)) := by
+  unfold At at hi
+  rw [mkL_cons, hi, he]
+
+/-- The top of the stack lies beyond `n`. -/
+def StOK (stack : List (Nat × Bool)) (n : Nat) : Prop := ∀ t od st, stack = (t, od) :: st → n < t
+
+theorem eff_clean {stack : List (Nat × Bool)} {n m : Nat} (h : StOK stack n) (hm : m ≤ n) (d : Bool) (k : Nat) :
+    eff m (d, k, stack) = (d, k, stack) := by
+  cases stack with
+  | nil => rfl
+  | cons p st =>
+    obtain ⟨t, od⟩ := p
+    have := h t od st rfl
+    simp only [eff]
+    rw [if_neg]
+    simp only [beq_iff_eq]; omega
+
+theorem StOK.mono {stack : List (Nat × Bool)} {n m : Nat} (h : StOK stack n) (hm : m ≤ n) : StOK stack m :=
+  fun t od st e => Nat.lt_of_le_of_lt hm (h t od st e)
+
+theorem nxt_plain {i : Insn} {fwd : Bool} {k k' : Nat} (stack : List (Nat × Bool)) (hp : plain i = true)
+    (hph : Sk.phase fwd (.one i) k = some k') : nxt (some i) (fwd, k, stack) = (fwd, k', stack) := by
+  cases i <;> simp [plain] at hp <;> simp only [Sk.phase] at hph <;>
+    first
+    | (split at hph
+       · cases hph; rfl
+       · cases hph)
+    | (simp only [nxt, hph, Option.getD_some])
+
+/-- A run of `ResetCaptureGroup`s. -/
+theorem mkL_resets {prog : Prog} {fwd : Bool} {stack : List (Nat × Bool)} : ∀ (cnt b : Nat),
+    (∀ i, i < cnt → ∃ g, At prog.insns (b + i) (.resetCaptureGroup g)) → StOK stack (b + cnt) →
+    ∀ (rest : List Nat) (c : Cert),
+    mkL prog (List.range' b cnt ++ rest) (fwd, 0, stack) c =
+      mkL prog rest (fwd, 0, stack) (pushL c (List.replicate cnt (fwd, 0)))
+  | 0, _, _, _, _, _ => rfl
+  | cnt + 1, b, h, hs, rest, c => by
+    obtain ⟨g, hg⟩ := h 0 (by omega)
+    rw [Nat.add_zero] at hg
+    rw [List.range'_succ, List.cons_append, mkL_step hg (eff_clean hs (by omega) fwd 0)]
+    simp only [nxt]
+    rw [mkL_resets cnt (b + 1) (fun i hi => by
+      obtain ⟨g, hg⟩ := h (i + 1) (by omega)
+      exact ⟨g, by rw [show b + 1 + i = b + (i + 1) by omega]; exact hg⟩)
+      (hs.mono (by omega)) rest]
+    rfl
+
+theorem range'_mid (b m : Nat) : List.range' b (m + 2) = b :: (List.range' (b + 1) m ++ [b + 1 + m]) := by
+  rw [show m + 2 = (m + 1) + 1 by omega, List.range'_succ, ← List.range'_append_1]; rfl
+
+theorem range'_alt (b a s : Nat) :
+    List.range' b (a + s + 2) = b :: (List.range' (b + 1) a ++ (b + a + 1) :: List.range' (b + a + 2) s) := by
+  rw [show a + s + 2 = (a + (s + 1)) + 1 by omega, List.range'_succ, ← List.range'_append_1,
+    List.range'_succ, show b + 1 + a = b + a + 1 by omega]
+
+theorem range'_loop (b m cnt : Nat) : List.range' b (m + cnt + 2) =
+    b :: (List.range' (b + 1) cnt ++ (List.range' (b + 1 + cnt) m ++ [b + 1 + cnt + m])) := by
+  rw [show m + cnt + 2 = (cnt + (m + 1)) + 1 by omega, List.range'_succ, ← List.range'_append_1,
+    ← List.range'_append_1]; rfl
+
+/-- **`mkCertLoop` on a laid-out skeleton** entered (after the pending pop) in state
+`(fwd, k, stack)`: it pushes exactly the explicit certificate and leaves a state that is
+`(fwd, k', stack)` after the pending pop at the exit address. -/
+theorem mkL_sk {prog : Prog} {G nb L : Nat} : ∀ (sk : Sk) (b : Nat) (fwd : Bool) (k k' : Nat)
+    (stack : List (Nat × Bool)) (raw : MkSt),
+    Lay prog.insns sk b → sk.ok G nb L = true → sk.phase fwd k = some k' → StOK stack (b + sk.size) →
+    eff b raw = (fwd, k, stack) → ∀ (rest : List Nat) (c : Cert),
+    ∃ raw', eff (b + sk.size) raw' = (fwd, k', stack) ∧
+      mkL prog (List.range' b sk.size ++ rest) raw c = mkL prog rest raw' (pushL c (sk.certs fwd k))
+  | .nil, b, fwd, k, k', stack, raw, _, _, hp, _, he, rest, c => by
+    simp only [Sk.phase, Option.some.injEq] at hp
+    subst hp
+    exact ⟨raw, he, rfl⟩
+  | .one i, b, fwd, k, k', stack, raw, h, hok, hp, hs, he, rest, c => by
+    simp only [Lay] at h
+    simp only [Sk.ok, Bool.and_eq_true] at hok
+    simp only [Sk.size] at hs ⊢
+    refine ⟨(fwd, k', stack), eff_clean hs (Nat.le_refl _) fwd k', ?_⟩
+    rw [show List.range' b 1 = [b] from rfl, List.cons_append, List.nil_append, mkL_step h he,
+      nxt_plain stack hok.1 hp]
+    rfl
+  | .seq a s, b, fwd, k, k', stack, raw, h, hok, hp, hs, he, rest, c => by
+    simp only [Lay] at h
+    simp only [Sk.ok, Bool.and_eq_true] at hok
+    simp only [Sk.size] at hs ⊢
+    simp only [Sk.phase] at hp
+    cases hpa : a.phase fwd k with
+    | none => rw [hpa] at hp; cases hp
+    | some ka =>
+      rw [hpa] at hp
+      simp only at hp
+      obtain ⟨raw1, e1, q1⟩ := mkL_sk a b fwd k ka stack raw h.1 hok.1 hpa (hs.mono (by omega)) he
+        (List.range' (b + a.size) s.size ++ rest) c
+      obtain ⟨raw2, e2, q2⟩ := mkL_sk s (b + a.size) fwd ka k' stack raw1 h.2 hok.2 hp
+        (hs.mono (by omega)) e1 rest (pushL c (a.certs fwd k))
+      refine ⟨raw2, by rw [← Nat.add_assoc]; exact e2, ?_⟩
+      rw [← List.range'_append_1, List.append_assoc, q1, q2]
+      simp only [Sk.certs, hpa, Option.getD_some, pushL_append]
+  | .alt a s, b, fwd, k, k', stack, raw, h, hok, hp, hs, he, rest, c => by
+    simp only [Lay] at h
+    simp only [Sk.ok, Bool.and_eq_true] at hok
+    simp only [Sk.size] at hs ⊢
+    simp only [Sk.phase] at hp
+    obtain ⟨h0, ha, hj, hs'⟩ := h
+    split at hp
+    · rename_i hk
+      obtain ⟨rfl, hpa, hps⟩ := hk
+      cases hp
+      obtain ⟨raw1, e1, q1⟩ := mkL_sk a (b + 1) fwd 0 0 stack (fwd, 0, stack) ha hok.1 hpa
+        (hs.mono (by omega)) (eff_clean hs (by omega) fwd 0)
+        ((b + a.size + 1) :: (List.range' (b + a.size + 2) s.size ++ rest)) (push1 c (fwd, 0))
+      obtain ⟨raw2, e2, q2⟩ := mkL_sk s (b + a.size + 2) fwd 0 0 stack (fwd, 0, stack) hs' hok.2 hps
+        (hs.mono (by omega)) (eff_clean hs (by omega) fwd 0) rest
+        (push1 (pushL (push1 c (fwd, 0)) (a.certs fwd 0)) (fwd, 0))
+      refine ⟨raw2, by rw [show b + (a.size + s.size + 2) = b + a.size + 2 + s.size by omega]; exact e2, ?_⟩
+      rw [show b + 1 + a.size = b + a.size + 1 by omega] at e1
+      rw [range'_alt, List.cons_append, List.append_assoc, List.cons_append, mkL_step h0 he]
+      simp only [nxt]
+      rw [q1, mkL_step hj e1]
+      simp only [nxt]
+      rw [q2]
+      simp only [Sk.certs, pushL_cons, pushL_append]
+    · cases hp
+  | .loop id mn mx gr g0 cnt body, b, fwd, k, k', stack, raw, h, hok, hp, hs, he, rest, c => by
+    simp only [Lay] at h
+    simp only [Sk.ok, Bool.and_eq_true] at hok
+    simp only [Sk.size] at hs ⊢
+    simp only [Sk.phase] at hp
+    obtain ⟨h0, hr, hb, hl⟩ := h
+    split at hp
+    · rename_i hk
+      obtain ⟨rfl, hpb⟩ := hk
+      cases hp
+      obtain ⟨raw1, e1, q1⟩ := mkL_sk body (b + 1 + cnt) fwd 0 0 stack (fwd, 0, stack) hb hok.2 hpb
+        (hs.mono (by omega)) (eff_clean hs (by omega) fwd 0)
+        ([b + 1 + cnt + body.size] ++ rest) (pushL (push1 c (fwd, 0)) (List.replicate cnt (fwd, 0)))
+      refine ⟨(fwd, 0, stack), eff_clean hs (Nat.le_refl _) fwd 0, ?_⟩
+      rw [range'_loop, List.cons_append, List.append_assoc, List.append_assoc, mkL_step h0 he]
+      simp only [nxt]
+      rw [mkL_resets cnt (b + 1) (fun i hi => ⟨_, hr i hi⟩) (hs.mono (by omega)), q1,
+        List.cons_append, List.nil_append, mkL_step hl e1]
+      simp only [nxt, Sk.certs, pushL_cons, pushL_append, pushL_nil]
+    · cases hp
+  | .loop1 mn mx gr body, b, fwd, k, k', stack, raw, h, hok, hp, hs, he, rest, c => by
+    simp only [Lay] at h
+    simp only [Sk.ok, Bool.and_eq_true] at hok
+    simp only [Sk.size] at hs ⊢
+    have hp' : k = 0 ∧ Sk.phase fwd (.one body) 0 = some 0 ∧ k' = 0 := by
+      simp only [Sk.phase] at hp
+      split at hp
+      · rename_i hk; cases hp; exact ⟨hk.1, hk.2, rfl⟩
+      · cases hp
+    obtain ⟨rfl, hpb, rfl⟩ := hp'
+    refine ⟨(fwd, 0, stack), eff_clean hs (Nat.le_refl _) fwd 0, ?_⟩
+    rw [show List.range' b 2 = [b, b + 1] from rfl, List.cons_append, List.cons_append, List.nil_append,
+      mkL_step h.1 he]
+    simp only [nxt]
+    rw [mkL_step h.2 (eff_clean hs (by omega) fwd 0), nxt_plain stack hok.1.1.1.2 hpb]
+    rfl
+  | .group g body, b, fwd, k, k', stack, raw, h, hok, hp, hs, he, rest, c => by
+    simp only [Lay] at h
+    simp only [Sk.ok, Bool.and_eq_true] at hok
+    simp only [Sk.size] at hs ⊢
+    simp only [Sk.phase] at hp
+    obtain ⟨h0, hb, hl⟩ := h
+    split at hp
+    · rename_i hk
+      obtain ⟨rfl, hpb⟩ := hk
+      cases hp
+      obtain ⟨raw1, e1, q1⟩ := mkL_sk body (b + 1) fwd 0 0 stack (fwd, 0, stack) hb hok.2 hpb
+        (hs.mono (by omega)) (eff_clean hs (by omega) fwd 0)
+        ([b + 1 + body.size] ++ rest) (push1 c (fwd, 0))
+      refine ⟨(fwd, 0, stack), eff_clean hs (Nat.le_refl _) fwd 0, ?_⟩
+      rw [range'_mid, List.cons_append, List.append_assoc, mkL_step h0 he]
+      simp only [nxt]
+      rw [q1, List.cons_append, List.nil_append, mkL_step hl e1]
+      simp only [nxt, Sk.certs, pushL_cons, pushL_append, pushL_nil]
+    · cases hp
+  | .look neg bw sg eg body, b, fwd, k, k', stack, raw, h, hok, hp, hs, he, rest, c => by
+    simp only [Lay] at h
+    simp only [Sk.ok, Bool.and_eq_true] at hok
+    simp only [Sk.size] at hs ⊢
+    simp only [Sk.phase] at hp
+    obtain ⟨h0, hb, hl⟩ := h
+    split at hp
+    · rename_i hk
+      obtain ⟨rfl, hpb⟩ := hk
+      cases hp
+      have hs1 : StOK ((b + body.size + 2, fwd) :: stack) (b + 1 + body.size) := by
+        intro t od st e; cases e; omega
+      obtain ⟨raw1, e1, q1⟩ := mkL_sk body (b + 1) (!bw) 0 0 ((b + body.size + 2, fwd) :: stack)
+        (!bw, 0, (b + body.size + 2, fwd) :: stack) hb hok.2 hpb
+        hs1 (eff_clean hs1 (by omega) (!bw) 0)
+        ([b + 1 + body.size] ++ rest) (push1 c (fwd, 0))
+      refine ⟨(!bw, 0, (b + body.size + 2, fwd) :: stack), ?_, ?_⟩
+      · simp only [eff]
+        rw [if_pos]
+        simp only [beq_iff_eq]; omega
+      · have hn : nxt (some (lookI neg bw sg eg (b + body.size + 2))) (fwd, 0, stack) =
+            (!bw, 0, (b + body.size + 2, fwd) :: stack) := by cases bw <;> rfl
+        rw [range'_mid, List.cons_append, List.append_assoc, mkL_step h0 he, hn, q1,
+          List.cons_append, List.nil_append, mkL_step hl e1]
+        simp only [nxt, Sk.certs, pushL_cons, pushL_append, pushL_nil]
+    · cases hp
+
+/-- On an emitted program the one-pass certificate is the explicit certificate of the root. -/
+theorem Root.mkCert_eq {r : IR.Regex} {prog : Prog} {sk : Sk} (R : Root r prog sk) :
+    mkCert prog = certOfList (sk.certs true 0) := by
+  have hs : StOK [] (0 + sk.size) := fun _ _ _ e => by cases e
+  obtain ⟨raw', _, q⟩ := mkL_sk sk 0 true 0 0 [] (true, 0, []) R.lay R.ok R.phase hs rfl []
+    { dir := #[], ph := #[] }
+  unfold mkCert
+  rw [R.size, List.range_eq_range']
+  rw [List.append_nil] at q
+  have q' : mkCertLoop prog (List.range' 0 sk.size) true 0 [] { dir := #[], ph := #[] } =
+      mkL prog [] raw' (pushL { dir := #[], ph := #[] } (sk.certs true 0)) := q
+  rw [q', pushL_empty]
+  rfl
+
+/-- **The canonical certificate of every emitted program is valid** (the Stage 3 hypothesis of C06,
+exactly as stated there). -/
+theorem Root.checkCert_mk {r : IR.Regex} {prog : Prog} {sk : Sk} (R : Root r prog sk) :
+    checkCert prog (mkCert prog) = true := by
+  rw [R.mkCert_eq]; exact R.checkCert_certs
+
+/-- **`emitted_checkCert`.** The phase certificate computed by `mkCert` validates on every program
+`emit` produces from a well-formed IR tree satisfying the IR-level side conditions. -/
+theorem emitted_checkCert {r : IR.Regex} {prog : Prog} (he : VM.emit r = .ok prog) (hw : IR.WF r.node)
+    (hng : IR.numGroups r.node ≤ 65535) (hnl : numLoops r.node ≤ 65535)
+    (hir : irOK r.node = true) : checkCert prog (mkCert prog) = true := by
+  obtain ⟨sk, R⟩ := emit_root he hw hng hnl hir
+  exact R.checkCert_mk
+
+/-! ## Non-vacuity
+
+The skeleton of `Proofs/C06.lean`'s `exProg3` (shortened chunks): an alternation whose first branch
+splits the literal `a€` inside `€` (`…e2 | 82 ac`), and whose second branch has a look-behind with the
+literal `zé` split inside `é` (chunks in reverse order), followed by `q\b`. -/
+
+def exSk : Sk :=
+  .seq (.alt (.seq (.one (.byteSeq [0x61, 0xe2])) (.one (.byteSeq [0x82, 0xac])))
+      (.seq (.look false true 0 0 (.seq (.one (.byteSeq [0xa9])) (.one (.byteSeq [0x7a, 0xc3]))))
+        (.seq (.one (.byteSeq [0x71])) (.one (.wordBoundary false)))))
+    (.one .goal)
+
+def exProg : Prog :=
+  { insns := #[.alt 4, .byteSeq [0x61, 0xe2], .byteSeq [0x82, 0xac], .jump 10,
+      .lookbehind false 0 0 8, .byteSeq [0xa9], .byteSeq [0x7a, 0xc3], .goal,
+      .byteSeq [0x71], .wordBoundary false, .goal],
+    brackets := #[], loops := 0, groups := 0, flags := {  }, names := [], startPred := .arbitrary }
+
+example : Lay exProg.insns exSk 0 := by
+  simp only [Lay, exSk, Sk.size, lookI, At]
+  decide
+
+example : exSk.phase true 0 = some 0 := by
+  simp only [exSk, Sk.phase]
+  decide
+
+theorem exSk_certs : exSk.certs true 0 = [(true, 0), (true, 0), (true, 2), (true, 0), (true, 0),
+    (false, 0), (false, 1), (false, 0), (true, 0), (true, 0), (true, 0)] := by
+  simp only [exSk, Sk.certs, Sk.phase]
+  decide
+
+example : exSk.ok 0 0 0 = true ∧ exSk.endsPlain = true := by decide
+
+example : mkCert exProg = certOfList (exSk.certs true 0) ∧ checkCert exProg (mkCert exProg) = true := by
+  rw [exSk_certs]; decide +kernel
 
 end Regress.Certs
